@@ -4,6 +4,9 @@ import json, os
 here = os.path.dirname(os.path.dirname(os.path.abspath(__file__)))
 TECH = "deterministic simulation with fault injection"
 claimed = {
+ "C11": ("exploration", "seeded search over chain shapes, member contents, per-member fault schedules, concurrent clients and a reconfiguration task for the real StoreRouter, Cache, RepairableCache, FailoverGroup and SwapStore; per-operation trace conformance of the member calls and the result against the documented policy evaluated over the observed member outcomes",
+         "sampling; failover member choice is bounded, not predicted; de-duplication inside chains is left to C12",
+         TECH + " (seeded scheduler, fault-scheduled member stores, per-operation policy conformance)"),
  "C06": ("exploration", "seeded search over inputs with many duplicate chunks, worker counts, interleavings and store-failure sequences (k-th HasChunk/StoreChunk/GetChunk failing or slow, up to three per run) of the real ChopFile, Copy, ChunkStream and make pipeline; oracle: success implies a complete, valid target store and a correct index, and any failure returned to desync implies an error result",
          "sampling; failures are injected at store-call granularity; the CLI wrappers around these library calls are not executed",
          TECH + " (seeded scheduler, k-th-call store faults, store-content oracle)"),
